@@ -371,6 +371,92 @@ pub fn run_case(case: &C18Case) -> CaseReport {
     rep
 }
 
+/// Faults that hit a connection BEFORE the server has accepted it (it sits in the listen queue
+/// because the connection limit is reached): reset, close after sending a request, close empty.
+/// The server must keep accepting and serving afterwards.
+fn before_accept_scenarios(ctx: &Ctx, acc: &Accum) -> Option<FailInfo> {
+    use std::io::Write;
+    let wait = Duration::from_secs(10);
+    for workers in [0usize, 2] {
+        for kind in 0..3u8 {
+            let server = match netpipe::start_server(ServerOpts { conn_limit: 1, workers, ..ServerOpts::default() }) {
+                Ok(s) => s,
+                Err(_) => continue,
+            };
+            let noop = |c: &mut Client, op: u32| -> bool {
+                let _ = c.sock.set_nonblocking(false);
+                let _ = c.sock.write_all(&wire::simple(wire::NOOP, op).bytes());
+                c.read_until(wait, |c| c.has_opaque(op))
+            };
+            let mut a = Client::connect(server.port).ok()?;
+            if !noop(&mut a, 1) {
+                continue;
+            }
+            // b is accepted and waits for the slot; c stays in the listen queue
+            let mut b = Client::connect(server.port).ok()?;
+            let _ = b.sock.write_all(&wire::simple(wire::NOOP, 2).bytes());
+            std::thread::sleep(Duration::from_millis(20));
+            let mut c = Client::connect(server.port).ok()?;
+            let mut incr = Cmd::new(Kind::Incr, b"ctr");
+            incr.delta = 1;
+            incr.initial = 10;
+            match kind {
+                0 => c.reset_close(),
+                1 => {
+                    let _ = c.sock.write_all(&incr.bytes());
+                    c.reset_close();
+                }
+                _ => {
+                    let _ = c.sock.write_all(&incr.bytes());
+                    c.close();
+                }
+            }
+            // free the slot: b must be served, then a fresh connection
+            a.close();
+            let b_ok = b.read_until(wait, |c| c.has_opaque(2));
+            b.close();
+            let d_ok = match Client::connect(server.port) {
+                Ok(mut d) => {
+                    let ok = noop(&mut d, 4);
+                    d.reset_close();
+                    ok
+                }
+                Err(_) => false, // connection refused: the listener is gone
+            };
+            acc.record_enum(hash_of(&("before_accept", workers, kind)), true, &["fault_before_accept"], || {
+                let fault = ["reset", "request_then_reset", "request_then_close"][kind as usize];
+                json!({"workers": workers, "fault": fault})
+            });
+            if !b_ok || !d_ok {
+                return Some(FailInfo {
+                    clause: "server_stopped_accepting".into(),
+                    msg: format!(
+                        "connection limit 1, runtime workers {}: a client {} while it was still waiting in the listen queue; afterwards the waiting connection was served: {}, a fresh connection was served: {} - the server no longer serves",
+                        workers,
+                        ["reset its connection", "sent a request and reset its connection", "sent a request and closed"][kind as usize],
+                        b_ok,
+                        d_ok
+                    ),
+                    signature: "server_stopped_accepting".into(),
+                    detail: json!({"workers": workers, "kind": kind}),
+                });
+            }
+            // the queued request is executed at most once
+            let v = server.side_get(b"ctr").map(|r| r.value);
+            if !(v.is_none() || v.as_deref() == Some(b"10")) {
+                return Some(FailInfo {
+                    clause: "queued_request_executed_twice".into(),
+                    msg: format!("a single incr sent on a connection that was then closed left the counter at {:?}", v.map(|v| String::from_utf8_lossy(&v).to_string())),
+                    signature: "queued_request_executed_twice".into(),
+                    detail: json!({"workers": workers, "kind": kind}),
+                });
+            }
+        }
+    }
+    let _ = ctx;
+    None
+}
+
 pub fn check(ctx: &mut Ctx) -> i32 {
     let acc = Accum::new();
     for path in regress_files("C18") {
@@ -383,6 +469,11 @@ pub fn check(ctx: &mut Ctx) -> i32 {
             }
             acc.count("regress_passed", 1);
         }
+    }
+    if let Some(fi) = before_accept_scenarios(ctx, &acc) {
+        report_violation(ctx, "c18_before_accept", &fi.detail.clone(), &fi);
+        write_evidence(ctx, &acc, RULE, ASSUME, 1);
+        return EXIT_VIOLATION;
     }
     ctx.max_shrink_iters = 40;
     let quick = ctx.quick();
@@ -422,6 +513,21 @@ fn load(path: &str) -> Result<C18Case, String> {
 }
 
 pub fn replay(path: &str) -> i32 {
+    if std::fs::read_to_string(path).map(|s| s.contains("c18_before_accept")).unwrap_or(false) {
+        let ctx = Ctx::new("C18", Tier::Quick, "fault_enumeration");
+        let acc = Accum::new();
+        return match before_accept_scenarios(&ctx, &acc) {
+            Some(fi) => {
+                println!("{}", fi.msg);
+                println!("VIOLATION property=C18 replay={}", path);
+                EXIT_VIOLATION
+            }
+            None => {
+                println!("replay {}: property C18 holds on this case", path);
+                EXIT_OK
+            }
+        };
+    }
     match load(path) {
         Ok(case) => match run_case(&case).fail {
             Some(fi) => {
